@@ -66,6 +66,12 @@ def gen(rng, n):
     return seqs
 
 
+# fixed cases run first: the two examples proved in HandleLife.v / HandleLifeFacts.v (so the implementation is shown to do
+# what those Examples say) 
+CORPUS = [[('s', 5, 100), ('o', 5, 1, 0, 200), ('s', 6, 101), ('c', 1), ('t', 5, 0, 200)],
+          [('t', 5, 0, 200), ('t', 6, 0, 200), ('t', 6, 0, 200), ('d', 1), ('t', 6, 0, 200)]]
+
+
 def coq_op(o):
     k = o[0]
     if k == 's': return 'AddSession %d %d' % (o[1], o[2])
@@ -78,7 +84,7 @@ def run(build_dir, seed, n):
     """returns (coverage dict, list of disagreements [{ops, impl, why}])"""
     drv = build(build_dir)
     rng = random.Random('khandle-%s' % seed)
-    seqs = gen(rng, n)
+    seqs = [list(c) for c in CORPUS] + gen(rng, n)
     text = '\n'.join(' '.join(' '.join(str(x) for x in o) for o in ops) for ops in seqs) + '\n'
     rc, out, err = vlib.sh([drv], input=text, timeout=120)
     lines = out.strip().split('\n')
